@@ -1,7 +1,9 @@
 """C15 — bounded observers: the independent recursive renderer (c15_render.py) applied to the glyph set before and after each
 filter, on random component graphs (depth <= 4, shared bases, dyadic affine maps incl. shear / mirror / 90-degree rotation), for
 both UFO libraries.  Also: bounded conformance of the TRUSTED Transform model (the formulas the lemmas are about) against the
-installed fontTools.  Everything here is reported as `bounded`.
+installed fontTools.  Everything here is reported as `bounded`,
+except the syntactic obligation `C15.frame.anchor-names` (no store to an attribute `.name` in propagateAnchors.py / transformations.py: the
+contracts model anchor names as immutable).
 """
 from __future__ import annotations
 
@@ -311,10 +313,41 @@ def gen_case(rng, k):
     return case
 
 
+def scan_anchor_names():
+    """C15.frame.anchor-names (syntactic): contracts/c15.py models an anchor's NAME as immutable (a function of the anchor object).  That is
+    what the code under contract does: neither filters/propagateAnchors.py nor filters/transformations.py stores to an attribute `.name`
+    (nor calls setattr / __setattr__).  Two obligations, one per file."""
+    import ast
+    import os
+
+    from .c01 import REPO
+
+    fails = []
+    files = ("propagateAnchors.py", "transformations.py")
+    for fn in files:
+        path = os.path.join(REPO, "Lib", "ufo2ft", "filters", fn)
+        tree = ast.parse(open(path, encoding="utf-8").read())
+        for n in ast.walk(tree):
+            if isinstance(n, ast.Attribute) and isinstance(n.ctx, (ast.Store, ast.Del)) and n.attr == "name":
+                fails.append((f"Lib/ufo2ft/filters/{fn}:{n.lineno}", f"stores to {ast.unparse(n)} (anchor names are modelled as immutable)"))
+            if isinstance(n, ast.Call) and ((isinstance(n.func, ast.Name) and n.func.id in ("setattr", "delattr")) or (isinstance(n.func, ast.Attribute) and n.func.attr in ("__setattr__", "__delattr__"))):
+                fails.append((f"Lib/ufo2ft/filters/{fn}:{n.lineno}", f"{ast.unparse(n.func)}(...) (anchor names are modelled as immutable)"))
+    return len(files), fails
+
+
 @hook("C15")
 def c15_bounded(tier, seed):
-    res = {"violations": [], "checker_errors": [], "evaluations": 0, "distinct": 0, "bounded": [], "trusted": []}
+    res = {"obligations": 0, "discharged": 0, "violations": [], "checker_errors": [], "evaluations": 0, "distinct": 0, "bounded": [], "trusted": []}
     rng = random.Random(seed * 15485863 + 3)
+    try:
+        obs, fails = scan_anchor_names()
+        res["obligations"] += obs
+        res["discharged"] += obs - min(obs, len(fails))
+        for label, detail in fails:
+            p = write_replay("C15", f"frame.anchor-names.{label}", {"property": "C15", "obligation": "C15.frame.anchor-names", "kind": "syntactic", "detail": detail, "case": None})
+            res["violations"].append(f"VIOLATION property=C15 replay={p} obligation=C15.frame.anchor-names ({detail})")
+    except Exception:
+        res["checker_errors"].append("C15 syntactic scan anchor-names crashed: " + traceback.format_exc()[-600:])
     try:
         why = transform_conformance(rng, 200 if tier == "quick" else 20000)
         res["evaluations"] += 200 if tier == "quick" else 20000
